@@ -86,6 +86,8 @@ def sib_export(ctx: Ctx) -> List[Ob]:
         nv = norm(nl.target)
         ok = match(f"if unique_nodes:\n    $k = {nv}._data_id\n    ...\nelse:\n    $k = {nv}._node_id", nl.body[0]) is not None or \
             (isinstance(nl.body[0], ast.If) and norm(nl.body[0].test) == "unique_nodes" and has(f"$k = {nv}._data_id", nl.body[0].body) and has(f"$k = {nv}._node_id", nl.body[0].orelse))
+        kf0 = _key_func(ctx, f)
+        ok = ok or (kf0 is not None and has(f"$k = {kf0.name}({nv})", nl))
         O(f, "node_to_dot: the node loop's key agrees with the key function", ok, "node definitions and edge endpoints must use the same key", nl)
         O(f, "node_to_dot: node definitions carry the node's name as label", has(f"{{'label': {nv}.name}}", nl), "exports carry the child's name", nl)
         if len(lps) == 2:
@@ -132,7 +134,9 @@ def sib_export(ctx: Ctx) -> List[Ob]:
             p0, p1 = g.positional_params()[:2]
             if has(f"{p1}['label'] = {p0}.kind", g.node) and has(f"edge_mapper({p0}, {p1})", g.node):
                 calls = [c for c in ctx.env.calls_in[f] if any(k.arg == "edge_mapper" and norm(k.value) == g.name for k in c.keywords)]
-                ok = len(calls) == 1
+                lab = [i for i, st in enumerate(g.body) if match(f"{p1}['label'] = {p0}.kind", st) is not None]
+                usr = [i for i, st in enumerate(g.body) if has(f"edge_mapper({p0}, {p1})", st)]
+                ok = len(calls) == 1 and bool(lab) and bool(usr) and lab[0] < usr[0]
     O(f, "typed DOT export labels every edge with the child's kind and still calls the user's edge mapper", ok, "typed edge labels lost")
     # RDF
     f = m.func("_add_child_node")
@@ -272,6 +276,14 @@ def render(ctx: Ctx) -> List[Ob]:
         ok = len(lps) == 1 and match("self.iterator(add_self=add_self)", lps[0].iter) is not None \
             and sum(isinstance(x, ast.Yield) for st in lps[0].body for x in ast.walk(st)) == 2 and isinstance(lst[0].body[-1], ast.Return)
     O(fi, "list style emits the renderings only, once per node of the walk", ok, "style='list' has no prefixes")
+    for g in (fi, rl):
+        ds = [n for n in iter_own(g.node) if isinstance(n, ast.If) and any(isinstance(x, ast.Assign) and "DEFAULT_RENDER_REPR" in norm(x) for x in n.body)]
+        ok = len(ds) == 1 and match("repr is None", ds[0].test) is not None and match("repr = self.DEFAULT_RENDER_REPR", ds[0].body[0]) is not None
+        O(g, f"{g.name}: the default rendering is the node class's DEFAULT_RENDER_REPR and replaces only repr=None", ok,
+          "repr='' is a legal (empty) rendering; typed nodes have their own default: list style and connector styles must agree")
+    rf = [x for x in ast.walk(rl.node) if isinstance(x, ast.Call) and isinstance(x.func, ast.Attribute) and x.func.attr == "format" and norm(x.func.value) == "repr"]
+    O(rl, "_render_lines formats only the repr template (the prefix is concatenated, never interpreted)", len(rf) == 1,
+      "custom connector tuples containing braces must be emitted verbatim")
     # add_self is only ever overridden by the system-root guard
     for g in (fi, rl):
         asg = [n for n in iter_own(g.node) if isinstance(n, ast.Assign) and any(norm(t) == "add_self" for t in n.targets)]
@@ -348,6 +360,16 @@ def diff(ctx: Ctx) -> List[Ob]:
     for member in sorted(dc):
         O(f, f"DiffClassification.{member} is assigned by diff_tree", member in written, "a classification that is never set")
         O(fm, f"DiffClassification.{member} is rendered by diff_node_formatter", member in handled, "unhandled mark")
+    # the added / removed id sets are two distinct sets
+    sets_ = [n for n in f.body if isinstance(n, ast.Assign) and match("set()", n.value) is not None]
+    ok = len(sets_) >= 2 and all(len(n.targets) == 1 for n in sets_)
+    O(f, "added and removed node ids are collected in two separate sets", ok,
+      "`a = b = set()` shares one set: removed nodes are re-classified as if they had been added")
+    fcf = m.func("_find_child")
+    a0, c0 = fcf.positional_params()[:2]
+    ok = has(f"if $c == {c0}:\n    return ($i, $c)", fcf.node) and has(f"enumerate({a0})", fcf.node)
+    O(fcf, "_find_child matches peers by node equality (== compares the data objects)", ok,
+      "identity of the data objects differs between two separately built trees: identical trees would show REMOVED marks")
     cmp_ = [g for g in f.nested if len(g.positional_params()) == 3]
     if not cmp_:
         raise AnalysisError("diff_tree: the recursive compare(p0, p1, p2) helper was not found")
